@@ -606,11 +606,18 @@ def c10(ctx):
         else:
             frames = st["frames"]
         payloads = [f.SerializeToString(deterministic=True) for f in frames]
+        per_frame = refenc.frame_events(enc.events, enc.event_rows, enc.frame_rows)
+        lead = 0
+        if si % 3 == 1:
+            # keep-alive style: the stream starts with one or two empty frames (the options come later)
+            lead = 1 + si % 2
+            payloads = [b""] * lead + payloads
+            per_frame = [[] for _ in range(lead)] + per_frame
         data = fam_encode.delimited(payloads)
         if len(data) > 1500 and ctx.quick:
             continue
         ctx.report.count(f"C10/frames-with-2-byte-prefix={sum(1 for p_ in payloads if len(p_) >= 128)}")
-        per_frame = refenc.frame_events(enc.events, enc.event_rows, enc.frame_rows)
+        ctx.report.count(f"C10/leading-empty-frames={lead}")
         # frame boundaries
         bounds, pos = [], 0
         for p in payloads:
